@@ -64,6 +64,7 @@ type scenario struct {
 	ReopenMid bool   `json:"reopen_mid"` // close+reopen between the transactions
 	Sweep     bool   `json:"sweep"`      // complete region sweep for blocks of size <= 80
 	Real      bool   `json:"real_block"` // first block is a real serialized genesis block
+	LRU       bool   `json:"lru"`        // more block files than ffldb keeps open: extra read orders
 }
 
 type blk struct {
@@ -305,6 +306,59 @@ func (x *runner) readAll(f *failer, tx database.Tx, blocks []*blk, phase string,
 	atomic.AddInt64(&x.reads, 3)
 }
 
+// lruReads re-reads the committed blocks in orders that make the block store evict and re-open
+// its read-only file handles (it keeps at most maxOpenFiles = 25 of them, least recently used
+// first out): ascending, descending, zig-zag between the two ends, ping-pong between the first
+// and the last files, and finally every block once more.
+func (x *runner) lruReads(f *failer, tx database.Tx, blocks []*blk, phase string) {
+	var vis []*blk
+	for _, b := range blocks {
+		if b.state == 2 {
+			vis = append(vis, b)
+		}
+	}
+	n := len(vis)
+	if n == 0 {
+		return
+	}
+	orders := map[string][]int{}
+	for i := 0; i < n; i++ {
+		orders["1-ascending"] = append(orders["1-ascending"], i)
+		orders["2-descending"] = append(orders["2-descending"], n-1-i)
+		orders["5-once-more"] = append(orders["5-once-more"], i)
+	}
+	for i, j := 0, n-1; i <= j; i, j = i+1, j-1 {
+		orders["3-zigzag"] = append(orders["3-zigzag"], i)
+		if i != j {
+			orders["3-zigzag"] = append(orders["3-zigzag"], j)
+		}
+	}
+	for r := 0; r < 3; r++ {
+		for k := 0; k < 3 && k < n; k++ {
+			orders["4-ping-pong"] = append(orders["4-ping-pong"], k, n-1-k)
+		}
+	}
+	for _, name := range []string{"1-ascending", "2-descending", "3-zigzag", "4-ping-pong", "5-once-more"} {
+		for _, i := range orders[name] {
+			b := vis[i]
+			got, err := tx.FetchBlock(&b.hash)
+			if err != nil {
+				f.fail("lru-reread-error|FetchBlock|"+phase, "order %s: FetchBlock of block %d of %d (one or two blocks per file) failed: %v", name[2:], i, n, err)
+			} else if !bytes.Equal(got, b.data) {
+				f.fail("lru-reread-bytes|FetchBlock|"+phase, "order %s: FetchBlock of block %d of %d returned different bytes", name[2:], i, n)
+			}
+			o := uint32(len(b.data) - 5)
+			rg, err := tx.FetchBlockRegion(&database.BlockRegion{Hash: &b.hash, Offset: o, Len: 5})
+			if err != nil {
+				f.fail("lru-reread-error|FetchBlockRegion|"+phase, "order %s: FetchBlockRegion of block %d of %d failed: %v", name[2:], i, n, err)
+			} else if !bytes.Equal(rg, b.data[o:]) {
+				f.fail("lru-reread-bytes|FetchBlockRegion|"+phase, "order %s: FetchBlockRegion of block %d of %d returned different bytes", name[2:], i, n)
+			}
+			atomic.AddInt64(&x.reads, 2)
+		}
+	}
+}
+
 func (x *runner) open(f *failer, dir string, create bool, max uint32) database.DB {
 	var db database.DB
 	var err error
@@ -414,6 +468,9 @@ func (x *runner) run1(f *failer, sc scenario, dir string) {
 	view := func(phase string) {
 		err := db.View(func(tx database.Tx) error {
 			x.readAll(f, tx, blocks, phase, sc.Sweep)
+			if sc.LRU {
+				x.lruReads(f, tx, blocks, phase)
+			}
 			if sc.Real && blocks[0].state == 2 {
 				for i, loc := range realLoc {
 					got, err := tx.FetchBlockRegion(&database.BlockRegion{Hash: &blocks[0].hash, Offset: uint32(loc[0]), Len: uint32(loc[1])})
@@ -554,6 +611,23 @@ func scenarios(r *evid.Run) []scenario {
 					out = append(out, scenario{Max: c.Max, Stores: lay, Split: split, Tx1: "commit", Sweep: true, ReopenMid: split < len(lay)})
 				}
 			}
+		}
+		if c.Max == 256 {
+			// more block files than the store keeps open (maxOpenFiles = 25): 29 files with one
+			// 200-byte block each, and 29 files with two 110-byte blocks each
+			one, two := make([]int, 29), make([]int, 58)
+			for i := range one {
+				one[i] = 200
+			}
+			for i := range two {
+				two[i] = 110
+			}
+			out = append(out,
+				scenario{Max: c.Max, Stores: one, Split: 29, Tx1: "commit", LRU: true},
+				scenario{Max: c.Max, Stores: one, Split: 10, Tx1: "commit", LRU: true},
+				scenario{Max: c.Max, Stores: one, Split: 27, Tx1: "commit", ReopenMid: true, LRU: true},
+				scenario{Max: c.Max, Stores: two, Split: 58, Tx1: "commit", LRU: true},
+				scenario{Max: c.Max, Stores: two, Split: 31, Tx1: "commit", ReopenMid: true, LRU: true})
 		}
 		out = append(out, scenario{Max: c.Max, Stores: []int{0, 80}, Split: 1, Tx1: "commit", Real: true},
 			scenario{Max: c.Max, Stores: []int{0, 80}, Split: 2, Tx1: "commit", Real: true})
